@@ -174,7 +174,7 @@ Example C16_example_request :
         (Some (mkPost (B "Text/Plain; charset=utf-8") [] (B "GZIPPED-hello"))) (-1)).
 Proof.
   split; [|split]; [|vm_compute; reflexivity|vm_compute; reflexivity].
-  split; [|discriminate]. cbn. repeat constructor; cbn; intuition discriminate.
+  split; [|intros _ H; discriminate H]. cbn. repeat constructor; cbn; intuition discriminate.
 Qed.
 
 Definition ex_res : pmsg :=
@@ -237,6 +237,38 @@ Theorem C16_request_dropped_verdict : forall X cap m rt,
   c16_req_ok X cap m Err rt = false <-> ~ req_may_drop X cap m.
 Proof. exact request_dropped_verdict. Qed.
 Print Assumptions C16_request_dropped_verdict.
+
+(* The (ContentLength, TransferEncoding, Body) triple as a modifier may leave
+   it.  C16_postdata_is_origin_body assumes only: ContentLength <= 0 and no
+   transfer coding => empty Body.  That guard is exactly the absence of the
+   C16-K4 signature, and without it the clause is refuted. *)
+Theorem C16_postdata_guard_is_absence_of_unframed_body : forall m,
+  unframed_body_b m = false <-> ((q_cl m <= 0)%Z -> q_te m = [] -> q_body m = []).
+Proof. exact unframed_body_b_iff. Qed.
+Print Assumptions C16_postdata_guard_is_absence_of_unframed_body.
+
+Theorem C16_postdata_is_origin_body_refuted_unframed : exists X m e,
+  law_dechunk X /\ NoDup (keys (q_hdrs m)) /\ har_req X OAll m = Ok e /\ ~ post_spec X true m e.
+Proof. exact postdata_refuted_unframed. Qed.
+Print Assumptions C16_postdata_is_origin_body_refuted_unframed.
+
+(* with a framing, the whole Body is the post data whatever ContentLength says *)
+Theorem C16_postdata_with_framing_any_length : forall X o m e,
+  law_dechunk X -> NoDup (keys (q_hdrs m)) -> has_framing m = true ->
+  har_req X o m = Ok e -> post_spec X (capture o (q_hdrs m)) m e.
+Proof. exact postdata_with_framing_any_length. Qed.
+Print Assumptions C16_postdata_with_framing_any_length.
+
+(* the response content never depends on the ContentLength field: the whole
+   Body is decoded (C16_content_size_is_true_length has no framing hypothesis) *)
+Theorem C16_response_content_ignores_content_length : forall X o m cl,
+  match har_res X o m, har_res X o (with_cl m cl) with
+  | Ok e, Ok e' => e_content e = e_content e'
+  | Err, Err => True
+  | _, _ => False
+  end.
+Proof. exact response_content_ignores_content_length. Qed.
+Print Assumptions C16_response_content_ignores_content_length.
 
 (* the guard of the partial theorem is exactly "neither known signature" *)
 Theorem C16_guard_is_absence_of_known_defects : forall X m,
@@ -409,3 +441,14 @@ Example C16_example_verdicts :
   req_clause X true ex_req framed (Some framed) = 2 /\
   req_clause X true ex_req good (roundtrip_req X lossy_req) = 3.
 Proof. cbv zeta. repeat split; vm_compute; reflexivity. Qed.
+
+(* a modifier-built answer: ContentLength 0, no transfer coding, Body "late":
+   logged with the whole Body and its true size *)
+Example C16_example_response_stale_content_length :
+  har_res (toyX Some Some Some) OAll
+          (mkPmsg 200 (B "HTTP/1.1") 0 [] [(B "Content-Type", [B "text/plain"])] (B "late") []) =
+  Ok (mkHres 200 (B "HTTP/1.1") [] [(B "Content-Type", B "text/plain")]
+        (mkContent 4 (B "text/plain") (B "late") (B "base64")) [] 0) /\
+  has_framing unframed_req = false /\ unframed_body_b unframed_req = true /\
+  has_framing ex_req = true.
+Proof. repeat split; vm_compute; reflexivity. Qed.
